@@ -49,7 +49,7 @@ def rand_n(g):
     r = g.random()
     if r < 0.1:
         return 1
-    return g.randint(1, 40) if r < 0.94 else g.choice([100, 257, 1000, 2500])
+    return g.randint(1, 40) if r < 0.94 else g.choice([100, 256, 257, 512, 1000, 1024, 2048, 2500])
 
 
 def gen_call(g, cfg, api, seed, mid=None):
